@@ -15,6 +15,8 @@ Temp_ABC == {"A", "C"}
 \* scenario ERR: like AB but A has a directive error after its temp directive
 Fail_None == {}
 Fail_A == {"A"}
+\* scenario EMP: like AB, but B consists of a temp directive only (its output is the empty file)
+Temp_B == {"B"}
 \* scenario IND: two independent sources, both with temp files
 Deps_IND == [s \in Src_AB |-> {}]
 Temp_IND == {"A", "B"}
@@ -23,4 +25,5 @@ Temp_IND == {"A", "B"}
 EdgeNext == TxtppStep /\ ((obs'.verdict = "ok" \/ fs' = fs) =>
                             PrintT(<<"EDGE", ToJson([ver |-> ver, from |-> fs, to |-> fs', obs |-> obs'])>>))
 EdgeSpec == InitAny /\ [][EdgeNext]_vars
+EdgeSpecLite == InitLite /\ [][EdgeNext]_vars
 =============================================================================
